@@ -13,7 +13,8 @@ CONSTANTS MaxOps,        \* operations per client
           Draws,         \* draw values offered after a successful swap, e.g. {0, 255}
           WithAges,      \* TRUE: the Age action is enabled
           MaxFaults,     \* number of injected faults per behaviour
-          Emit, MaxLen
+          Emit, MaxLen,
+          Sit            \* which situation MEmitSit looks for (see Situation)
 
 VARIABLES nops, nfaults, h, everSnapOnChain
 mvars == <<vars, nops, nfaults, h, everSnapOnChain>>
@@ -30,7 +31,10 @@ Call(c) ==
   /\ cl[c].pc = "idle" /\ nops[c] < MaxOps
   /\ \/ "AV" \in Ops /\ AVCall(c, base[c], Body(c)) /\ h' = Append(h, Ev("AV", c))
      \/ "GC" \in Ops /\ GCCall(c, base[c]) /\ h' = Append(h, Ev("GC", c))
-     \/ "AS" \in Ops /\ base[c] >= 1 /\ ASCall(c, base[c], Body(c)) /\ h' = Append(h, Ev("AS", c))
+     \* a snapshot is uploaded by the sync that has just added (or pulled) the version: it is not
+     \* an old version by then
+     \/ "AS" \in Ops /\ base[c] >= 1 /\ base[c] \notin old
+          /\ ASCall(c, base[c], Body(c)) /\ h' = Append(h, Ev("AS", c))
      \/ "GS" \in Ops /\ GSCall(c) /\ h' = Append(h, Ev("GS", c))
   /\ nops' = [nops EXCEPT ![c] = @ + 1]
   /\ UNCHANGED nfaults /\ Track
@@ -82,4 +86,19 @@ MEmit == (Emit /\ ((AllIdleC /\ (\A c \in Clients : nops[c] = MaxOps)) \/ Len(h)
 MEmitBad == (Emit /\ ~(OneChildPerParent /\ AckedOnChain /\ ReadsOnChain /\ RetainedComplete
                        /\ FreshCanReconstruct))
             => PrintT(<<"REPLAY", ToJson(h)>>)
+(* Situations that random schedules rarely reach; TLC finds shortest schedules   *)
+(* into them, and the harness lets the operations run to their end from there.  *)
+InSit(c) ==
+  CASE Sit = "probe"   -> cl[c].pc = "gc3"
+    [] Sit = "probe1"  -> cl[c].pc = "gc3" /\ Cardinality(cl[c].cands) = 1
+    [] Sit = "probe2"  -> cl[c].pc = "gc3" /\ Cardinality(cl[c].cands) >= 2
+    [] Sit = "lostcas" -> cl[c].pc = "av4"
+    [] Sit = "orphans" -> cl[c].pc = "clD" /\ cl[c].dels # {}
+    [] Sit = "snapdel" -> cl[c].pc = "clX" /\ cl[c].sdel # {}
+    [] Sit = "olddel"  -> cl[c].pc = "clX" /\ cl[c].odel # <<>>
+    [] Sit = "snapold" -> cl[c].pc = "clX" /\ cl[c].sdel # {} /\ cl[c].odel # <<>>
+    [] OTHER -> FALSE
+MEmitSit ==
+  (Emit /\ \E c \in Clients : InSit(c))
+    => PrintT(<<"REPLAY", ToJson(Append(h, Ev("Mark", CHOOSE c \in Clients : InSit(c))))>>)
 =============================================================================
